@@ -78,13 +78,13 @@ class TBPeriph(LiteXModule):
 #   periphs    : [(module name, items, fixed csr location or None, how the location is fixed: "map"|"add"|None, irq)]
 #                irq: None | "auto" | int (fixed interrupt number)
 #   rams       : [(name, origin, size, mode)] extra bus memories (besides the 0x100-byte "sram")
-#   rom        : None | (origin, size, image length, endianness)  integrated ROM initialised through get_mem_data
+#   roms       : [(name, origin, size, image length, endianness)]  ROMs initialised through get_mem_data
 ALL_SIZES = [("st", "r1", 1), ("st", "r8", 8), ("st", "r9", 9), ("st", "r32", 32), ("st", "r33", 33), ("st", "r64", 64),
              ("st", "r65", 65), ("ro", "s8", 8), ("ro", "s33", 33), ("ro", "s65", 65)]
 MENUS = {
     # every register width of the DESIGN list, stock controller + timer, automatic locations
     "sizes": dict(ctrl=True, timer=True, timer_irq=False,
-                  periphs=[("pa", ALL_SIZES, None, None, None)], rams=[], rom=None),
+                  periphs=[("pa", ALL_SIZES, None, None, None)], rams=[], roms=[]),
     # atomic registers, fields (one of them crossing a 32-bit word), constants, no controller
     "atomic": dict(ctrl=False, timer=False, timer_irq=False,
                    periphs=[("pb", [("sta", "a16", 16), ("sta", "a33", 33), ("sta", "a64", 64), ("st", "n40", 40),
@@ -94,18 +94,18 @@ MENUS = {
                                     ("rof", "g32", [("ia", 1, 0), ("ib", 6, 9), ("ic", 4, 28)]),
                                     ("rof", "g12", [("ja", 3, 0), ("jb", 5, 7)]),
                                     ("const", "k0", 0x1234), ("const", "k1", 7)], None, None, None)],
-                   rams=[], rom=None),
+                   rams=[], roms=[]),
     # CSR-mapped memories, fixed CSR locations (csr_map and add_csr), interrupts (fixed and automatic numbers)
     "memfix": dict(ctrl=True, timer=True, timer_irq=True,
                    periphs=[("pc", [("mem", "buf", 8, 12, False), ("mem", "lut", 32, 6, True), ("st", "r16", 16), ("ro", "s16", 16)], 5, "map", None),
                             ("pd", [("st", "r24", 24), ("ro", "s40", 40), ("ev", ["e0", "e1"])], 3, "add", 7),
                             ("pe", [("st", "r8", 8), ("ev", ["e0"])], None, None, "auto")],
-                   rams=[], rom=None),
+                   rams=[], roms=[]),
     # nothing at CSR location 0: every bank has a fixed location > 0
     "loc0free": dict(ctrl=False, timer=True, timer_irq=True, timer_loc=2, extra_map={"pf_buf": 7},
                      periphs=[("pf", [("st", "r32", 32), ("st", "r48", 48), ("ro", "s8", 8), ("mem", "buf", 8, 8, False)], 6, "map", None),
                               ("pg", [("st", "r12", 12), ("ev", ["e0"])], 4, "add", 3)],
-                     rams=[], rom=None),
+                     rams=[], roms=[]),
     # several instances, adjacent / non power-of-two bus memories, an initialised ROM (end-to-end image check)
     "multi": dict(ctrl=True, timer=True, timer_irq=False,
                   periphs=[("p0", [("st", "r8", 8), ("st", "r64", 64), ("ro", "s32", 32)], None, None, None),
@@ -114,7 +114,7 @@ MENUS = {
                            ("p3", [("st", "r33", 33)], None, None, None),
                            ("p4", [("st", "r1", 1)], None, None, None)],
                   rams=[("ram2", 0x01000100, 0x100, "rwx"), ("main_ram", 0x40000000, 0x180, "rwx")],
-                  rom=(0x02000000, 0x40, 17, "little")),
+                  roms=[("rom", 0x02000000, 0x40, 17, "little"), ("rom2", 0x02000100, 0x20, 13, "big")]),
 }
 MENU_ORDER = ["sizes", "atomic", "memfix", "loc0free", "multi"]
 
@@ -157,20 +157,20 @@ def build(std, bdw, ic, cdw, paging, ordering, aw, base, menu, tmpdir=None):
             soc.irq.enable()
         for name, origin, size, mode in M["rams"]:
             soc.add_ram(name, origin=origin, size=size, mode=mode)
-        image = None
-        if M["rom"] is not None:
+        images = {}
+        for rname, origin, size, n, endian in M["roms"]:
             from litex.soc.integration.common import get_mem_data
             import tempfile, os
-            origin, size, n, endian = M["rom"]
-            image = rom_image_bytes(n)
+            data = rom_image_bytes(n)
             fd, fn = tempfile.mkstemp(prefix="c14rom", dir=tmpdir)
             try:
-                os.write(fd, image)
+                os.write(fd, data)
                 os.close(fd)
                 words = get_mem_data(fn, data_width=bdw, endianness=endian)
             finally:
                 os.unlink(fn)
-            soc.add_rom("rom", origin=origin, size=size, contents=words)
+            soc.add_rom(rname, origin=origin, size=size, contents=words)
+            images[rname] = (data, endian)
         if M["timer"]:
             if M["timer_irq"]:
                 soc.add_timer("timer0")
@@ -196,7 +196,7 @@ def build(std, bdw, ic, cdw, paging, ordering, aw, base, menu, tmpdir=None):
         if sys.stderr is None:
             sys.stderr = stderr
     b = Built()
-    b.soc, b.m, b.periphs, b.menu, b.image = soc, m, periphs, M, image
+    b.soc, b.m, b.periphs, b.menu, b.image = soc, m, periphs, M, images
     b.cdw, b.bdw, b.ordering, b.base, b.paging, b.aw = cdw, bdw, ordering, base, paging, aw
     collect_truth(b)
     return b
